@@ -264,6 +264,16 @@ class Universe:
         elif op == "ReplaceAllUsesSeq":
             self._ret(ir.convenience.replace_all_uses_with([self.V(x) for x in c["vs"]], [self.V(x) for x in c["ws"]],
                                                            replace_graph_outputs=bool(c["flag"])))
+        elif op == "GExtendGen":
+            def lazy_nodes():
+                for _ in range(c["i"]):
+                    node = ir.Node("", "Op", [self.V(c["v"])], num_outputs=1, name=f"n{len(self.nodes) + 1}")
+                    self._add_node(node)
+                    self._adopt_fresh_outputs(node)
+                    yield node
+                raise RuntimeError("vf: the iterable fails")
+
+            self._ret(self.GF(c["g"]).extend(lazy_nodes()))
         elif op == "NewGraph":
             gi = c["g"]
             old = self.graphs[gi - 1]
